@@ -643,7 +643,6 @@ theorem moveBody_ok (cfg : Config) (s1 : FState α) (cmd : Cmd α) (dE pE : α) 
           simp only
           by_cases hq : (lr.recoverExcluded && !lr.firmwareRetract) = true
           · simp only [hq, if_true, n2lAbs_ok hw3.pos.2.2.2, ok_bind, pure_eq_ok]
-            cases c3.getLast? <;> rfl
           · simp only [hq, Bool.false_eq_true, if_false, pure_eq_ok]
 
 /-- the inserted `G92 E` does not touch the filter state -/
